@@ -187,9 +187,8 @@ class BitArray(Bits):
                     return
                 else:
                     raise ValueError("Can't assign an integer except 0 or 1 to a slice with a step value.")
-            # To find the length we first get the slice
-            s = self._bitstore.getslice(key.start, key.stop)
-            length = len(s)
+            # The integer is as wide as the number of positions the slice selects (the step is 1 or -1 here).
+            length = len(range(*key.indices(len(self))))
             # Now create an int of the correct length
             if value >= 0:
                 value = self.__class__(uint=value, length=length)
